@@ -23,7 +23,7 @@ func parseLoadFile94(reader io.Reader, coresize Address) (WarriorData, error) {
 		// empty lines and last lines without newlines seem to be missed
 		// should something else be used? or are these not worth handling?
 		raw_line, err := breader.ReadString('\n')
-		if err != nil {
+		if err != nil && len(raw_line) == 0 {
 			break
 		}
 		lineNum++
@@ -40,7 +40,7 @@ func parseLoadFile94(reader io.Reader, coresize Address) (WarriorData, error) {
 				data.Name = strings.TrimSpace(raw_line[5:])
 			} else if strings.HasPrefix(lower, ";author") {
 				data.Author = strings.TrimSpace(raw_line[7:])
-			} else if strings.HasPrefix(lower, ";strategy") {
+			} else if strings.HasPrefix(lower, ";strategy") && len(raw_line) > 10 {
 				data.Strategy += raw_line[10:]
 			}
 			continue
@@ -279,7 +279,7 @@ func parseLoadFile88(reader io.Reader, coresize Address) (WarriorData, error) {
 		// empty lines and last lines without newlines seem to be missed
 		// should something else be used? or are these not worth handling?
 		raw_line, err := breader.ReadString('\n')
-		if err != nil {
+		if err != nil && len(raw_line) == 0 {
 			break
 		}
 		lineNum++
@@ -296,7 +296,7 @@ func parseLoadFile88(reader io.Reader, coresize Address) (WarriorData, error) {
 				data.Name = strings.TrimSpace(raw_line[5:])
 			} else if strings.HasPrefix(lower, ";author") {
 				data.Author = strings.TrimSpace(raw_line[7:])
-			} else if strings.HasPrefix(lower, ";strategy") {
+			} else if strings.HasPrefix(lower, ";strategy") && len(raw_line) > 10 {
 				data.Strategy += raw_line[10:]
 			}
 			continue
